@@ -138,7 +138,7 @@ theorem frame_any (i : MergeInput) (h : DomC03 i = true) :
     holdsC03 i (addK i.k i.d i.m) = true := by
   obtain ⟨d, m, k⟩ := i
   simp only [DomC03, Bool.and_eq_true] at h
-  obtain ⟨⟨hwf, _⟩, hsh⟩ := h
+  obtain ⟨hwf, hsh⟩ := h
   obtain ⟨rc, hrc⟩ := wf_of_WfRO hwf
   obtain ⟨hmid, base, hb, hne, hsend⟩ := shaped_facts hsh
   by_cases hc : completed d = true
